@@ -339,25 +339,39 @@ def native_build(q, work, prep, sanitize=False):
     qd = prep['dir']
     rt = os.path.join(HERE, 'native', 'symx_native.cpp')
     ent = '-DSYMX_ENTRY=' + q.entry
-    objs = []
-    for p in q.libs:
-        o = compile_obj(work, src_path(p), q.lowering)
-        if q.stubs:
-            # weaken the real definitions of stubbed functions so that the harness-side stub wins at link time
-            ow = o[:-2] + '.w%s.o' % hashlib.md5(repr(sorted(q.stubs)).encode()).hexdigest()[:6]
-            if not os.path.exists(ow):
-                cmd = ['objcopy']
-                for s in q.stubs:
-                    cmd += ['-W', s]
-                must(cmd + [o, ow])
-            o = ow
-        objs.append(o)
-    for p in q.models:
-        objs.append(compile_obj(work, src_path(p), q.lowering, {'SYMX_NATIVE': 1}))
     hpath = os.path.join(HERE, 'harness', q.harness)
     d = dict(q.defines)
     d['SYMX_NATIVE'] = 1
-    objs.append(compile_obj(work, hpath, q.lowering, d, tuple(q.cflags)))
+    use = {'USE_' + v: 1 for v in q.stubs.values()}
+    d.update(use)
+    hobj = compile_obj(work, hpath, q.lowering, d, tuple(q.cflags))
+    mobjs = [compile_obj(work, src_path(p), q.lowering, dict(use, SYMX_NATIVE=1)) for p in q.models]
+    # every global function the harness / the models define overrides the library's definition of the same name:
+    # weaken those definitions in the library objects (objcopy -W) so that the harness-side stub wins at link time
+    defined = set()
+    for o in [hobj] + mobjs:
+        r = run(['nm', '--defined-only', '-g', o])
+        for line in r.stdout.split('\n'):
+            parts = line.split()
+            if len(parts) == 3 and parts[1] in ('T', 'W'):
+                defined.add(parts[2])
+    objs = []
+    for p in q.libs:
+        o = compile_obj(work, src_path(p), q.lowering)
+        r = run(['nm', '--defined-only', '-g', o])
+        clash = sorted(set(l.split()[2] for l in r.stdout.split('\n') if len(l.split()) == 3 and l.split()[1] == 'T') & defined)
+        if clash:
+            ow = o[:-2] + '.w%s.o' % hashlib.md5(repr(clash).encode()).hexdigest()[:6]
+            if not os.path.exists(ow):
+                cmd = ['objcopy']
+                for sname in clash:
+                    cmd += ['-W', sname]
+                must(cmd + [o, ow + '.tmp%d' % os.getpid()])
+                os.rename(ow + '.tmp%d' % os.getpid(), ow)
+            o = ow
+        objs.append(o)
+    objs += mobjs
+    objs.append(hobj)
     rto = compile_obj(work, rt, 'scalar', {}, (ent,), tag=q.entry)
     exeA = os.path.join(qd, 'native_real')
     must(['g++', '-o', exeA] + objs + [rto, '-lm', '-lpthread', '-no-pie', '-Wl,--unresolved-symbols=ignore-all', '-Wl,-z,lazy'])
